@@ -25,7 +25,7 @@ import vlib
 import serverlib as sl
 
 THEOREMS = ["C09_definition", "C09_references", "C09_document_symbol", "C09_folding_range", "C09_inlay_hint",
-            "C09_document_link", "C09_diagnostics", "C09_plumbing_is_source", "C09_pipeline", "C09_position_faithful", "C09_from_validity",
+            "C09_document_link", "C09_diagnostics", "C09_plumbing_is_source", "C09_pipeline", "C09_pipeline_all", "C09_position_faithful", "C09_from_validity",
             "C09_pipeline_folding",
             "C09_old_refuted"]
 # the gen files in the cone of props/C09.vo: GenServerConv, GenLineIndex (plumbing) and, through Pipeline / C17, the grammar side
